@@ -1,10 +1,15 @@
 from .. import facts
 from ..common import Report, finish
-from ..rules import carry, c07
+from .. import flow
+from ..common import load_table
+from ..rules import carry, c07, c06, widenlate
 
 RULE = ("in the modular add / sub / neg / double / special-modulus mul / halving routines of Uint, BoxedUint and the "
         "Montgomery forms: (a) every carry / borrow returned by an adc / sbb / mac / shl1-family call is consumed on every path, "
-        "or dropped at a reviewed site (C04's rule and table); (b) the result depends on every operand, including the modulus")
+        "or dropped at a reviewed site (C04's rule and table); (b) the result depends on every operand, including the modulus; "
+        "(c) c07.dbgwidth: a boxed modular routine does not relate the sizes of its operands in a debug assertion only; "
+        "(d) c07.widenlate: no unsigned add / mul is computed in the narrow word type and widened afterwards (the wide type must "
+        "receive the operands, or `carry + 1` wraps for the modulus 2^BITS - MAX)")
 
 
 def run(tier, t0):
@@ -14,9 +19,20 @@ def run(tier, t0):
         carry.run(f, rep, cfg, scope_prefix=None, table="c04.toml", auto_wrapping=False,
                   counter="carry_returning_calls_in_modular_routines", stale_check=False, body_filter=c07.in_scope)
         c07.run_completeness(f, rep, cfg)
+        widenlate.run(f, rep, cfg, select=c07.in_scope, prefix="c07.widenlate", counter="narrow_arithmetic_sites_modular")
+        eng = flow.Engine(f, flow.Policy())
+        eng.run_all(collect=False)
+        rev = {e["key"]: e["reason"] for e in load_table("c04.toml").get("reviewed_dbgwidth", [])}
+        c06.run_debug_width(f, rep, cfg, eng, select=lambda b: c07.in_scope(b) and b.get("vis") == "pub",
+                            prefix="c07.dbgwidth", counter="boxed_modular_bodies", reviewed=rev,
+                            effect="operands of different precision are processed over one operand's length: the result is "
+                                   "not the canonical residue (e.g. -0 mod p returns p for a wider p), where the debug profile "
+                                   "panics")
     rep.stale = []
     rep.floor("carry_returning_calls_in_modular_routines", 30)
     rep.floor("modular_routines", 30)
+    rep.floor("boxed_modular_bodies", 5)
+    rep.floor("narrow_arithmetic_sites_modular", 4)
     return finish(rep, tier, t0,
                   explanation="two structural necessary conditions of C07: the correction by p is decided by the carry / borrow "
                               "of the trial addition / subtraction, so a flag that is computed and dropped makes the result "
